@@ -1298,6 +1298,9 @@ int yylex () {
         {
           return -1;
         }
+      /* set by the L prefix of the literal that is being read, and only for that one: left
+       * set, every plain string in every later file was checked as a wide string */
+      wide_char_literal = 0;
       switch (c = *outptr++)
         {
         case LEX_EOF:
